@@ -48,6 +48,19 @@ from solvor.types import Result
 __all__ = ["articulation_points", "bridges"]
 
 
+def _undirected_adjacency[S](
+    node_list: list[S], node_set: set[S], neighbors: Callable[[S], Iterable[S]]
+) -> dict[S, dict[S, None]]:
+    """Adjacency with every listed edge present in both directions (first-seen order kept)."""
+    adj: dict[S, dict[S, None]] = {v: {} for v in node_list}
+    for v in node_list:
+        for w in neighbors(v):
+            if w in node_set:
+                adj[v][w] = None
+                adj[w][v] = None
+    return adj
+
+
 def articulation_points[S](
     nodes: Iterable[S],
     neighbors: Callable[[S], Iterable[S]],
@@ -63,6 +76,7 @@ def articulation_points[S](
         return Result(set(), 0, 0, n)
 
     node_set = set(node_list)
+    adj = _undirected_adjacency(node_list, node_set, neighbors)
     discovery: dict[S, int] = {}
     low: dict[S, int] = {}
     parent: dict[S, S | None] = {}
@@ -79,10 +93,7 @@ def articulation_points[S](
         low[v] = time[0]
         time[0] += 1
 
-        for w in neighbors(v):
-            if w not in node_set:
-                continue
-
+        for w in adj[v]:
             if w not in discovery:
                 children += 1
                 parent[w] = v
@@ -126,6 +137,7 @@ def bridges[S](
         return Result([], 0, 0, n)
 
     node_set = set(node_list)
+    adj = _undirected_adjacency(node_list, node_set, neighbors)
     discovery: dict[S, int] = {}
     low: dict[S, int] = {}
     parent: dict[S, S | None] = {}
@@ -141,10 +153,7 @@ def bridges[S](
         low[v] = time[0]
         time[0] += 1
 
-        for w in neighbors(v):
-            if w not in node_set:
-                continue
-
+        for w in adj[v]:
             if w not in discovery:
                 parent[w] = v
                 dfs(w)
